@@ -33,11 +33,8 @@ def obligations(chk):
             if variant == "explicit":
                 it.ctx.assume(step >= 1)
                 it.ctx.assume(nb >= 1)
-                # every requested lag leaves at least one overlapping row (else the mean is over an empty set: undefined)
-                it.ctx.assume(z3.ToReal(nb) * z3.ToReal(step) <= z3.ToReal(R) + z3.ToReal(step) - 1)
                 sf = it.call_repo(SC, "calculate_structure_function", [ph, nb, step])
             else:
-                it.ctx.assume(R >= C)
                 sf = it.call_repo(SC, "calculate_structure_function", [ph])
             return it, ph, sf
 
@@ -49,10 +46,10 @@ def obligations(chk):
                 return goals
             xm = zi(sf.shape[0])
             if variant == "explicit":
-                mn = z3.If(z3.ToReal(nb) <= z3.ToReal(C) / z3.ToReal(st) - 1, z3.ToReal(nb), z3.ToReal(C) / z3.ToReal(st) - 1)
+                mn = z3.If(z3.ToReal(nb) <= z3.ToReal(R) / z3.ToReal(st) - 1, z3.ToReal(nb), z3.ToReal(R) / z3.ToReal(st) - 1)
             else:
-                mn = z3.If(z3.ToReal(C) / 4 <= z3.ToReal(C) - 1, z3.ToReal(C) / 4, z3.ToReal(C) - 1)
-            goals.append(("length=int(min(nbOfPoint, cols/step - 1))", xm == z3.If(mn >= 0, z3.ToInt(mn), -z3.ToInt(-mn))))
+                mn = z3.If(z3.ToReal(C) / 4 <= z3.ToReal(R) - 1, z3.ToReal(C) / 4, z3.ToReal(R) - 1)
+            goals.append(("length=int(min(nbOfPoint, rows/step - 1))", xm == z3.If(mn >= 0, z3.ToInt(mn), -z3.ToInt(-mn))))
             goals.append(("lag0-is-zero", z3.Implies(xm >= 1, zr(sf.get([0])) == 0)))
             code = zr(sf.get([j]))
             spec = spec_sf(it, ph, j * st)
